@@ -123,17 +123,15 @@ def rule_r3(facts, col):
         if body.self_adt != DEFRAMER or body.name != "update_state":
             continue
         # anchor: the point where the partial closing flag is stripped from the collected bits (len - 7)
-        anchors = []
-        for bb in sorted(body.reachable(0)):
-            t = body.term(bb)
-            if t["k"] == "assert" and t["msg"]["kind"] == "Overflow" and t["msg"].get("op") == "Sub":
-                b = peel(body.operand_expr(t["msg"]["b"]), through_try=False)
-                if b.k == "const" and b.v == 7:
-                    anchors.append(bb)
+        # anchor: inside the FinalCheck arm (six ones seen), the edge on which the next bit is NOT a one: that bit completes a
+        # flag whatever has been collected so far (also a flag sharing its zero with the previous one)
+        anchors = _flag_complete_points(facts, body) or _flag_strip_points(body)
         if not anchors:
-            col.silent("C13.R3", body.q, body.where(), "flag-strip point not found")
+            col.silent("C13.R3", body.q, body.where(), "flag-completion point not found")
             continue
-        after = body.reachable(anchors[0])
+        after = set()
+        for a_ in anchors:
+            after |= body.reachable(a_)
         bad = []
         n = 0
         for bb, si, e in assigns_to_return(body):
@@ -321,6 +319,64 @@ def _borrowed_mut(body, local):
     return False
 
 
+def _flag_complete_points(facts, body):
+    """first blocks after `six ones + a non-one bit` in the FinalCheck arm of the state switch"""
+    variants = enum_variants(facts, STATE_ENUM) or []
+    if "FinalCheck" not in variants:
+        return []
+    out = []
+    for s0 in sorted(body.reachable(0)):
+        t0 = body.term(s0)
+        if t0["k"] != "switch":
+            continue
+        e0 = switch_discr_expr(body, s0)
+        if e0.k != "discr":
+            continue
+        x = e0.a
+        while x is not None and x.k in ("ref", "deref"):
+            x = x.a
+        if not (x is not None and x.k == "field" and x.name == "state"):
+            continue
+        fc = variant_target(body, s0, variants.index("FinalCheck"), len(variants))
+        if fc is None:
+            continue
+        others = set()
+        for v in variants:
+            if v != "FinalCheck":
+                tg = variant_target(body, s0, variants.index(v), len(variants))
+                if tg is not None:
+                    others |= body.reachable(tg)
+        region = body.reachable(fc) - others
+        for edge, f in edge_facts(body):
+            if edge[0] not in region:
+                continue
+            # bit == 1 false edge / bit != 1 true edge / bit == 0 true edge
+            e1, e2 = f[1], (f[2] if len(f) > 2 else None)
+            def is_bit(e):
+                p = peel(e, through_try=False) if e is not None and not isinstance(e, (int, bool)) else None
+                while p is not None and p.k == "cast":
+                    p = peel(p.a, through_try=False)
+                return p is not None and p.k == "param" and p.idx == 2
+            def cval(e):
+                if isinstance(e, bool):
+                    return None
+                if isinstance(e, int):
+                    return e
+                p = peel(e, through_try=False) if e is not None else None
+                return p.v if (p is not None and p.k == "const" and isinstance(p.v, int) and not isinstance(p.v, bool)) else None
+            if not (is_bit(e1) or is_bit(e2)):
+                continue
+            c = cval(e2) if is_bit(e1) else cval(e1)
+            rel = f[0]
+            not_one = (rel in ("Ne", "IntNe") and c == 1) or (rel in ("Eq", "IntEq") and c == 0) or (rel == "Lt" and is_bit(e1) and c == 1) or \
+                (rel == "Le" and is_bit(e1) and c == 0)
+            if not_one:
+                out.append(edge[1])
+        if out:
+            return out
+    return out
+
+
 def _flag_strip_points(body):
     anchors = []
     for bb in sorted(body.reachable(0)):
@@ -332,104 +388,6 @@ def _flag_strip_points(body):
     return anchors
 
 
-def _eval_u8(e, v, bit, depth=0):
-    """constant-fold a u8 expression over the register value v and the incoming bit"""
-    if e is None or depth > 30:
-        return None
-    p = peel(e, through_try=False)
-    if p.k == "const" and isinstance(p.v, int) and not isinstance(p.v, bool):
-        return p.v & 0xff
-    if p.k == "cast":
-        return _eval_u8(p.a, v, bit, depth + 1)
-    if p.k == "param":
-        return bit if p.idx == 2 else None
-    if p.k == "field" and p.owner == STATE_ENUM:
-        return v
-    if p.k == "deref":
-        return _eval_u8(p.a, v, bit, depth + 1)
-    if p.k == "bin":
-        a = _eval_u8(p.a, v, bit, depth + 1)
-        b = _eval_u8(p.b, v, bit, depth + 1)
-        if a is None or b is None:
-            return None
-        op = p.op.replace("Unchecked", "")
-        if op == "Shr":
-            return (a >> b) & 0xff
-        if op == "Shl":
-            return (a << b) & 0xff
-        if op == "BitOr":
-            return a | b
-        if op == "BitAnd":
-            return a & b
-        if op == "BitXor":
-            return a ^ b
-        if op == "Add":
-            return (a + b) & 0xff
-        return None
-    return None
-
-
-def rule_r6(facts, col):
-    """no phantom flag: with the constant the flag detector's shift register is (re)seeded with, fewer than 8 received bits
-    can never read as the flag (constant folding of the register update over all bit strings shorter than 8)"""
-    upd = None
-    flag = None
-    for body in facts.bodies:
-        if body.self_adt != DEFRAMER or body.name != "update_state":
-            continue
-        for edge, f in edge_facts(body):
-            cands = []
-            if f[0] == "IntEq" and isinstance(f[2], int):
-                cands.append((f[1], f[2]))
-            elif f[0] == "Eq":
-                for x, y in ((f[1], f[2]), (f[2], f[1])):
-                    py = peel(y, through_try=False)
-                    if py.k == "const" and isinstance(py.v, int) and not isinstance(py.v, bool):
-                        cands.append((x, py.v))
-            for e, val in cands:
-                if val in (0, 1):
-                    continue
-                if any(x.k == "bin" and x.op in ("Shr", "Shl") for x in walk(e)) and any(x.k == "param" and x.idx == 2 for x in walk(e)):
-                    upd, flag, ubody = e, val & 0xff, body
-    if upd is None:
-        col.silent("C13.R6", DEFRAMER + ":seed", "", "flag comparison on the shift register not found")
-        return
-    if _eval_u8(upd, 0xff, 1) is None:
-        col.silent("C13.R6", DEFRAMER + ":seed", ubody.where(), "register update not constant-foldable")
-        return
-    seeds = {}
-    for body in facts.bodies:
-        for b2 in sorted(body.reachable(0)):
-            for st in body.blocks[b2]["stmts"]:
-                if st["k"] == "assign" and st["rv"]["k"] == "agg" and st["rv"].get("adt") == STATE_ENUM and st["rv"].get("variant") == "Unsynced":
-                    c = peel(body.operand_expr(st["rv"]["ops"][0]), through_try=False)
-                    if c.k == "const" and isinstance(c.v, int):
-                        seeds.setdefault(c.v & 0xff, []).append((body, b2))
-    for sv, sites in sorted(seeds.items()):
-        key = "%s:seed=%#x" % (DEFRAMER, sv)
-        frontier = {sv}
-        hit = None
-        for k in range(1, 8):
-            nxt = set()
-            for v in frontier:
-                for bit in (0, 1):
-                    n = _eval_u8(upd, v, bit)
-                    if n == flag:
-                        hit = k
-                    nxt.add(n)
-            if hit:
-                break
-            frontier = nxt
-        body, b2 = sites[0]
-        if hit:
-            col.bad("C13.R6", key, body.where(b2),
-                    "the flag detector is (re)seeded with %#x: after only %d received bits the register can read %#x, a flag that was "
-                    "never on the wire (its missing bits come from the seed). The phantom flag swallows the leading bit of the real "
-                    "opening flag and the frame that follows is lost" % (sv, hit, flag), {"sites": [b.where(x) for b, x in sites][:6]})
-        else:
-            col.ok("C13.R6", key, body.where(b2), "no bit string shorter than 8 turns seed %#x into the flag %#x (%d sites)" % (sv, flag, len(sites)))
-
-
 def run(ctx):
     facts = ctx.facts("default")
     ctx.anchor("C13", DEFRAMER in facts.adts, "hdlc_deframer::HdlcDeframer")
@@ -437,8 +395,6 @@ def run(ctx):
     rule_r2(facts, ctx)
     rule_r3(facts, ctx)
     rule_r5(facts, ctx)
-    rule_r6(facts, ctx)
-    ctx.floor("C13.R6", 1, "the all-ones seed of State::Unsynced")
     ctx.floor("C13.R5", 1, "Synced restarts after the closing flag (3 today, 1 when built by a helper)")
     from . import c15
     c15.rule_scope(facts, ctx, lambda b: b.file == "src/hdlc_deframer.rs", rule_id="C13.R4")
